@@ -200,6 +200,19 @@ func c12StepHarness(maxCap int) {
 func VerifHarness_C12_Step2() { c12StepHarness(2) }
 func VerifHarness_C12_Step3() { c12StepHarness(3) }
 
+// Capacity 3 with free room or full, reads and writes only: a cache that is not yet full
+// must keep its recency order too (the order is observed through the ghost after the step
+// and through the victim of a later overflow in the history harnesses).
+func VerifHarness_C12_Step3PG() {
+	capN := 3
+	ttl := time.Duration(verifInt64("ttl"))
+	m := verifIntRange("resident", 2, 3)
+	c, g := c12Build(capN, ttl, m)
+	op := verifIntRange("op", 0, 1)
+	c12Step(c, g, capN, ttl, op)
+	verifReach("step-done")
+}
+
 // Default capacity for non-positive arguments.
 func VerifHarness_C12_DefaultCap() {
 	n := verifInt("cap")
